@@ -5,6 +5,7 @@ CONSTANTS
   MaxCalls = 1000000
   MaxRel = 1000000
   TraceFile = "sema_trace_1.ndjson"
+  Kinds <- AllKinds
 INVARIANTS BoundT
 POSTCONDITION Post
 CHECK_DEADLOCK FALSE
